@@ -24,6 +24,8 @@ fn main() {
         ("topsort", "record") => yv::cx::topsort_record(&args),
         ("c20", "record") => yv::c20::record(&args),
         ("c20", "replay") => yv::c20::replay(&args),
+        ("c20i", "record") => yv::c20i::record(&args),
+        ("c20i", "replay") => yv::c20i::replay(&args),
         ("c04", "record") => yv::c04::record(&args),
         ("c04", "replay") => yv::c04::replay(&args),
         ("c01", "record") => yv::c01::record(&args),
